@@ -83,6 +83,10 @@ CONFIGS = [
     cfg("recipient_q", [["build"], ["recipient_enc"], ["recipient_add", "addassertion", "recipient_dec", "decorate"], ["recipient_dec"]],
         atoms=("a1",), nreg=1, maxsize=30, maxt=1, inv=("WellFormedInv",), props=("C10Prop",),
         shapes="ShUpTo(%s, 3) \\cup {e \\in Sh(%s, 5) : IsNode(e)} \\cup NodeSubjectNodes({Leaf(V(\"a1\"))}, 9) \\cup Decorated({Leaf(V(\"a1\"))})" % (B1, B1)),
+    cfg("recipient_t", [["build"], ["recipient_enc"], ["recipient_add", "addassertion", "recipient_dec", "decorate", "elideset"],
+                        ["recipient_add", "recipient_dec", "elideset", "codec"], ["recipient_dec"]],
+        atoms=("a1",), nreg=1, maxsize=40, maxt=1, inv=("WellFormedInv",), props=("C10Prop",),
+        shapes="ShUpTo(%s, 3) \\cup {e \\in Sh(%s, 5) : IsNode(e)} \\cup NodeSubjectNodes({Leaf(V(\"a1\"))}, 9) \\cup Decorated({Leaf(V(\"a1\"))})" % (B1, B1)),
     # SSKR: every policy x every subset of the shares; shares of two splits mixed (C11)
     cfg("sskr_q", [["build"], ["encrypt"], ["sskr_splitjoin"]],
         atoms=("a1",), nreg=1, maxsize=30, maxt=1, inv=("WellFormedInv",), props=("C11Prop",), policies=policies(2, 3),
